@@ -70,35 +70,20 @@ func (self *Transformer) stmtVariants(node ast.AnalyzedStatement) []ast.Analyzed
 			Range:       nodeTemp.Range,
 		}
 
-		// output = append(output, node)
-		output = append(output, ast.AnalyzedStatement(
-			ast.AnalyzedExpressionStatement{
-				Expression: ast.AnalyzedBlockExpression{
-					Block: ast.AnalyzedBlock{
-						Statements: []ast.AnalyzedStatement{node},
-						Expression: nil,
-						Range:      node.Span(),
-						ResultType: ast.NewNeverType(),
-					},
-				},
-				Range: node.Span(),
-			}))
-		output = append(output, ast.AnalyzedWhileStatement{
-			Condition: ast.AnalyzedBlockExpression{
-				Block: ast.AnalyzedBlock{
-					Statements: []ast.AnalyzedStatement{node},
-					Expression: nil,
-					Range:      node.Span(),
-					ResultType: ast.NewNeverType(),
-				},
-			},
+		output = append(output, node)
+
+		// NOTE: the wrapper of a diverging statement has to diverge for the analyzer as well: a `while` or
+		// an `if` without `else` is of type `null`, a `loop` without `break` is not. A block expression
+		// would do, but any expression of type `never` makes the analyzer treat an enclosing `loop` as
+		// left by `break`, i.e. as of type `null`.
+		output = append(output, ast.AnalyzedLoopStatement{
 			Body: ast.AnalyzedBlock{
-				Statements: make([]ast.AnalyzedStatement, 0),
+				Statements: []ast.AnalyzedStatement{node},
 				Expression: nil,
 				Range:      node.Span(),
-				ResultType: ast.NewNullType(node.Span()),
+				ResultType: ast.NewNeverType(),
 			},
-			NeverTerminates: false,
+			NeverTerminates: true,
 			Range:           node.Span(),
 		})
 	case ast.BreakStatementKind:
@@ -115,73 +100,30 @@ func (self *Transformer) stmtVariants(node ast.AnalyzedStatement) []ast.Analyzed
 				},
 				Range: node.Span(),
 			}))
-		output = append(output, ast.AnalyzedWhileStatement{
-			Condition: ast.AnalyzedBlockExpression{
-				Block: ast.AnalyzedBlock{
-					Statements: []ast.AnalyzedStatement{node},
-					Expression: nil,
-					Range:      node.Span(),
-					ResultType: ast.NewNeverType(),
-				},
-			},
-			Body: ast.AnalyzedBlock{
-				Statements: make([]ast.AnalyzedStatement, 0),
-				Expression: nil,
-				Range:      node.Span(),
-				ResultType: ast.NewNeverType(),
-			},
-			NeverTerminates: true,
-			Range:           node.Span(),
-		})
 	case ast.ContinueStatementKind:
-		// output = append(output, node)
-		output = append(output, ast.AnalyzedStatement(
-			ast.AnalyzedExpressionStatement{
-				Expression: ast.AnalyzedBlockExpression{
-					Block: ast.AnalyzedBlock{
-						Statements: []ast.AnalyzedStatement{node},
-						Expression: nil,
-						Range:      node.Span(),
-						ResultType: ast.NewNeverType(),
-					},
-				},
-				Range: node.Span(),
-			}))
-		output = append(output, ast.AnalyzedWhileStatement{
-			Condition: ast.AnalyzedBlockExpression{
-				Block: ast.AnalyzedBlock{
-					Statements: []ast.AnalyzedStatement{node},
-					Expression: nil,
-					Range:      node.Span(),
-					ResultType: ast.NewNeverType(),
-				},
-			},
-			Body: ast.AnalyzedBlock{
-				Statements: make([]ast.AnalyzedStatement, 0),
-				Expression: nil,
-				Range:      node.Span(),
-				ResultType: ast.NewNeverType(),
-			},
-			NeverTerminates: true,
-			Range:           node.Span(),
-		})
+		// A block around it is an expression of type `never`: the analyzer would treat an enclosing
+		// `loop` without `break` as terminating (see above).
+		break
 	case ast.LoopStatementKind:
 		node := node.(ast.AnalyzedLoopStatement)
 
 		output = append(output, ast.AnalyzedLoopStatement{
 			Body:            self.Block(node.Body),
-			NeverTerminates: false,
+			NeverTerminates: node.NeverTerminates,
 			Range:           node.Span(),
 		})
-		output = append(output, ast.AnalyzedWhileStatement{
-			Condition: ast.AnalyzedBoolLiteralExpression{
-				Value: true,
-				Range: node.Range,
-			},
-			Body:            self.Block(node.Body),
-			NeverTerminates: false,
-			Range:           node.Span(),
-		})
+		// A `while` is of type `null` for the analyzer: only a loop that can be left by `break` may become one.
+		if !node.NeverTerminates {
+			output = append(output, ast.AnalyzedWhileStatement{
+				Condition: ast.AnalyzedBoolLiteralExpression{
+					Value: true,
+					Range: node.Range,
+				},
+				Body:            self.Block(node.Body),
+				NeverTerminates: false,
+				Range:           node.Span(),
+			})
+		}
 	case ast.WhileStatementKind:
 		node := node.(ast.AnalyzedWhileStatement)
 		output = append(output, self.WhileStmtAsLoop(node)...)
@@ -211,8 +153,15 @@ func (self *Transformer) stmtVariants(node ast.AnalyzedStatement) []ast.Analyzed
 
 	output = append(output, node)
 
-	// The following transformations will create a new scope for the statement, rendering let-statements useless.
-	if node.Kind() == ast.LetStatementKind {
+	// The following transformations will create a new scope for the statement, rendering let-statements
+	// and type definitions useless.
+	if node.Kind() == ast.LetStatementKind || node.Kind() == ast.TypeDefinitionStatementKind {
+		return output
+	}
+
+	// They also turn a diverging statement into one of type `null`: the enclosing block would no longer
+	// diverge for the analyzer (`fn f() -> int { for _i in 0..1 { return 1; } }` is rejected).
+	if node.Type().Kind() == ast.NeverTypeKind {
 		return output
 	}
 
